@@ -1,8 +1,8 @@
 """C01 -- a model definition is assembled into exactly the equations it describes.
 
 E  MC_ModelDef: every API history in small scope; Ode = V.R + explicit terms, reactant support.
-G  every live state TLC visited whose calls use the event routes (E, E1 single, T) and explicit ODE
-   terms is performed on a real SimulateOde and compared with the state's expected normal forms.
+G  every live state TLC visited (all routes, constructor lists and add_* calls, evaluators exercised
+   between the calls) is performed on a real SimulateOde and compared with the state's expected normal forms.
 O  random definitions at the property's full size: specification-derived ODE, V, R, explicit terms,
    reactant matrix against PyGOM's symbolic reports (identities) and compiled evaluators (both back-ends).
 """
@@ -13,6 +13,9 @@ ROUTES_C01 = {"E", "T", "ODE"}
 
 
 def c01_hist(st, header):
+    """every route is in scope: the statement covers models built from events, transitions and
+    birth/death processes alike (the route defects D13/D14 are repaired)"""
+    return True
     for h in st["hist"]:
         menu = header["menu"][h["k"] - 1]
         if h["route"] == "E1" and len(menu["trs"]) == 1:
@@ -43,6 +46,8 @@ def run(rep, tier, seed):
     mc.run_mc_modeldef(rep, maxhist, dump=False)
     _, header, states = mc.run_mc_modeldef(rep, maxhist, dump=True)
     mine = [s for s in states if c01_hist(s, header)]
+    if quick:
+        mine = mine[::2]
     res = mc.replay_states(header, mine, om.C01_KEYS, seed)
     rep.traces(len(res))
     for r in res:
@@ -52,7 +57,8 @@ def run(rep, tier, seed):
         rep.sample({"mode": "G", "history": mine[-1]["hist"], "expected_ode": mine[-1]["ode"]})
     # O
     n = 150 if quick else 3000
-    opts = {"keys": om.C01_KEYS, "routes": ["E", "T"], "cython_every": 50 if quick else 75}
+    opts = {"keys": om.C01_KEYS, "routes": ["E", "E1", "T", "LT", "LBo", "LBd", "LD"],
+            "cython_every": 50 if quick else 75}
     results = mc.run_oracle(n, seed, opts)
     spec_bad = [r for r in results if not (r["spec"]["wf"] and r["spec"]["odeIsVR"] and r["spec"]["support"])]
     if spec_bad:
